@@ -62,6 +62,13 @@ func fieldCases() []fieldCase {
 		{Name: "automap_ptr", Decls: in + "type PFXOut struct {\n\tName string\n\tLast *string\n\tStreet *string\n}\n", Src: "PFXIn", Tgt: "PFXOut",
 			Lines: []string{"autoMap PN"},
 			Pairs: map[string]*PairSpec{"PFXIn→PFXOut": {Fields: map[string]*FieldSpec{"Last": fs("PN", "Last"), "Street": fs("PN", "Street")}}}},
+		// one source pointer read by several target fields: every read keeps its own nil check
+		{Name: "path_same_pointer_twice", Decls: "type PFXIs struct{ A int }\ntype PFXIt struct{ A int }\ntype PFXIn struct {\n\tNick *string\n\tP *PFXIs\n\tL *[]int\n}\ntype PFXOut struct {\n\tNick *string\n\tAlias *string\n\tThird *string\n\tP *PFXIt\n\tP2 *PFXIt\n\tL *[]int\n\tL2 *[]int\n}\n", Src: "PFXIn", Tgt: "PFXOut",
+			Lines: []string{"map Nick Alias", "map Nick Third", "map P P2", "map L L2"},
+			Pairs: map[string]*PairSpec{"PFXIn→PFXOut": {Fields: map[string]*FieldSpec{"Alias": fs("Nick"), "Third": fs("Nick"), "P2": fs("P"), "L2": fs("L")}}}},
+		{Name: "path_same_nested_pointer_twice", Decls: "type PFXN struct {\n\tNick *string\n\tAge *int\n}\ntype PFXIn struct {\n\tN *PFXN\n\tM PFXN\n}\ntype PFXOut struct {\n\tA *string\n\tB *string\n\tC int\n\tD *int\n\tE *string\n\tF *string\n}\n", Src: "PFXIn", Tgt: "PFXOut",
+			Lines: []string{"map N.Nick A", "map N.Nick B", "map N.Age C", "map N.Age D", "map M.Nick E", "map M.Nick F", "useZeroValueOnPointerInconsistency"},
+			Pairs: map[string]*PairSpec{"PFXIn→PFXOut": {Fields: map[string]*FieldSpec{"A": fs("N", "Nick"), "B": fs("N", "Nick"), "C": fs("N", "Age"), "D": fs("N", "Age"), "E": fs("M", "Nick"), "F": fs("M", "Nick")}}}},
 		{Name: "ignorecase", Decls: "type PFXIn struct {\n\tFULLNAME string\n\tage int\n\tName string\n\tNAME string\n}\ntype PFXOut struct {\n\tFullName string\n\tAge int\n\tName string\n}\n", Src: "PFXIn", Tgt: "PFXOut",
 			Lines: []string{"matchIgnoreCase"}, Formats: []string{"variable"},
 			Pairs: map[string]*PairSpec{"PFXIn→PFXOut": {Fields: map[string]*FieldSpec{"FullName": fs("FULLNAME"), "Age": fs("age"), "Name": fs("Name")}}}},
@@ -74,6 +81,30 @@ func fieldCases() []fieldCase {
 		{Name: "ignoreunexported", Decls: in + "type PFXOut struct {\n\tName string\n\thidden int\n\tsecret *string\n}\n", Src: "PFXIn", Tgt: "PFXOut",
 			Lines: []string{"ignoreUnexported"},
 			Pairs: map[string]*PairSpec{"PFXIn→PFXOut": {IgnoreUnexported: true}}},
+		// field settings on a method between identical types are not swallowed by skipCopySameType
+		{Name: "skipcopy_identical_types_settings_kept", Decls: "type PFXIn struct {\n\tName string\n\tSecret string\n\tTitle string\n\tL []int\n}\n", Src: "PFXIn", Tgt: "PFXIn",
+			Conv: []string{"skipCopySameType"}, Lines: []string{"ignore Secret", "map Name Title"},
+			Pairs: map[string]*PairSpec{"PFXIn→PFXIn": {Fields: map[string]*FieldSpec{"Secret": {Ignore: true}, "Title": fs("Name")}}}},
+		{Name: "skipcopy_identical_pointer_types_settings_kept", Decls: "type PFXIn struct {\n\tName string\n\tSecret string\n\tL []int\n}\n", Src: "*PFXIn", Tgt: "*PFXIn",
+			Conv: []string{"skipCopySameType"}, Lines: []string{"ignore Secret"},
+			Pairs: map[string]*PairSpec{"PFXIn→PFXIn": {Fields: map[string]*FieldSpec{"Secret": {Ignore: true}}}}},
+		{Name: "fail_skipcopy_identical_types_unknown_field", Decls: "type PFXIn struct{ Name string }\n", Src: "PFXIn", Tgt: "PFXIn",
+			Conv: []string{"skipCopySameType"}, Lines: []string{"map Nope Bogus"}, Fail: "map names fields that do not exist (the method converts one type into itself under skipCopySameType)"},
+		// a method over defined pointer types (type P *S) converts the structs itself, its field settings apply
+		{Name: "defined_pointer_types", Decls: in + "type PFXOut struct {\n\tTitle string\n\tAge int\n\tExtra int\n}\ntype PFXPIn *PFXIn\ntype PFXPOut *PFXOut\n", Src: "PFXPIn", Tgt: "PFXPOut",
+			Lines: []string{"map Name Title", "ignore Extra"},
+			Pairs: map[string]*PairSpec{"PFXIn→PFXOut": {Fields: map[string]*FieldSpec{"Title": fs("Name"), "Extra": {Ignore: true}}}}},
+		{Name: "defined_pointer_source", Decls: in + "type PFXOut struct {\n\tTitle string\n\tAge int\n\tExtra int\n}\ntype PFXPIn *PFXIn\n", Src: "PFXPIn", Tgt: "*PFXOut",
+			Lines: []string{"map Name Title", "ignore Extra"},
+			Pairs: map[string]*PairSpec{"PFXIn→PFXOut": {Fields: map[string]*FieldSpec{"Title": fs("Name"), "Extra": {Ignore: true}}}}},
+		// an explicit map line on an unexported field is not swallowed by ignoreUnexported: it takes effect where the
+		// field can be written (output in the target's package) and is reported elsewhere
+		{Name: "ignoreunexported_explicit_map", Decls: in + "type PFXOut struct {\n\tName string\n\tsecret string\n\thidden int\n}\n", Src: "PFXIn", Tgt: "PFXOut",
+			Lines: []string{"ignoreUnexported", "map Name secret"}, Formats: []string{"variable"},
+			Pairs: map[string]*PairSpec{"PFXIn→PFXOut": {IgnoreUnexported: true, Fields: map[string]*FieldSpec{"secret": fs("Name")}}}},
+		{Name: "fail_ignoreunexported_explicit_map_inaccessible", Decls: in + "type PFXOut struct {\n\tName string\n\tsecret string\n\thidden int\n}\n", Src: "PFXIn", Tgt: "PFXOut",
+			Lines: []string{"ignoreUnexported", "map Name secret"}, Formats: []string{"struct", "function"},
+			Fail: "goverter:map on an unexported field that cannot be written from the output package (ignoreUnexported must not swallow the line)"},
 		{Name: "source_method", Decls: in + "func (s PFXIn) Display() string { return \"\" }\nfunc (s PFXIn) Count() int { return 0 }\ntype PFXOut struct {\n\tName string\n\tShown string\n\tCount int\n}\n", Src: "PFXIn", Tgt: "PFXOut",
 			Lines: []string{"map Display Shown"},
 			Pairs: map[string]*PairSpec{"PFXIn→PFXOut": {Fields: map[string]*FieldSpec{"Shown": {Whole: true, Fn: "PFXIn.Display"}, "Count": {Whole: true, Fn: "PFXIn.Count"}}}}},
@@ -172,6 +203,13 @@ func fieldCases() []fieldCase {
 		{Name: "fail_overlap_source_pointer_method_flag", Decls: "type PFXS struct {\n\tFullName string\n\tName string\n}\ntype PFXT struct{ Name string }\ntype PFXW struct{ Item PFXS }\ntype PFXWT struct{ Item PFXT }\n", Src: "*PFXS", Tgt: "PFXT",
 			Lines: []string{"useZeroValueOnPointerInconsistency", "map FullName Name"}, Extra: "\tPFXInner(source PFXW) PFXWT\n",
 			Fail: "field settings (map) on a *S -> T method that another method's S -> T conversion bypasses"},
+		// a method of the target type is no field
+		{Name: "fail_map_target_is_a_method_of_the_target", Decls: "type PFXIn struct {\n\tName string\n\tFull string\n}\ntype PFXOut struct{ Name string }\n\nfunc (o PFXOut) Display() string { return o.Name }\n", Src: "PFXIn", Tgt: "PFXOut",
+			Lines: []string{"map Full Display"}, Fail: "map names a method of the target type, nothing can be assigned to it"},
+		{Name: "fail_ignore_target_is_a_pointer_method_of_the_target", Decls: "type PFXIn struct{ Name string }\ntype PFXOut struct{ Name string }\n\nfunc (o *PFXOut) Secret() string { return o.Name }\n", Src: "PFXIn", Tgt: "PFXOut",
+			Lines: []string{"ignore Secret"}, Fail: "ignore names a method of the target type, not a field"},
+		{Name: "fail_mapfunc_target_is_an_embedded_method", Decls: "type PFXBase struct{ ID int }\n\nfunc (b PFXBase) Key() int { return b.ID }\n\ntype PFXIn struct {\n\tName string\n}\ntype PFXOut struct {\n\tPFXBase\n\tName string\n}\nfunc PFXUp(s string) string { return s }\n", Src: "PFXIn", Tgt: "PFXOut",
+			Lines: []string{"ignore PFXBase", "map Name Key | PFXUp"}, Fail: "map|FUNC names a promoted method of the target type"},
 		// a setting that names a target field which does not exist is reported also when no target field reads the source
 		{Name: "fail_unknown_ignore_when_every_field_is_ignored", Decls: "type PFXIn struct{ Name string }\ntype PFXOut struct {\n\tName string\n\tAge int\n}\n", Src: "PFXIn", Tgt: "PFXOut",
 			Lines: []string{"ignore Name Age", "ignore Typo"}, Fail: "ignore names a target field that does not exist (all real fields are ignored)"},
@@ -179,6 +217,21 @@ func fieldCases() []fieldCase {
 			Lines: []string{"map Name Typo"}, Fail: "map names a target field that does not exist (the target struct has no fields)"},
 		{Name: "fail_unknown_mapfunc_target_when_fields_filled_by_noarg_func", Decls: "type PFXIn struct{ Name string }\ntype PFXOut struct{ Stamp string }\nfunc PFXNow() string { return \"\" }\n", Src: "PFXIn", Tgt: "PFXOut",
 			Lines: []string{"map Stamp | PFXNow", "map Typo | PFXNow"}, Fail: "map|FUNC names a target field that does not exist (no field reads the source)"},
+		// the settings of a method on pointers are written for its own source struct: elements converted into the same
+		// target type from *another* struct follow the plain rules
+		{Name: "no_leak_to_other_source_same_target", Decls: "type PFXS struct {\n\tName string\n\tFullName string\n\tPrev []PFXR\n}\ntype PFXR struct {\n\tName string\n\tFullName string\n}\ntype PFXT struct {\n\tName string\n\tPrev []PFXT\n}\n", Src: "*PFXS", Tgt: "*PFXT",
+			Conv: []string{"ignoreMissing"}, Lines: []string{"map FullName Name"},
+			Pairs: map[string]*PairSpec{"PFXS→PFXT": {IgnoreMissing: true, Fields: map[string]*FieldSpec{"Name": fs("FullName")}}, "PFXR→PFXT": {IgnoreMissing: true}}},
+		{Name: "no_leak_to_other_source_same_target_ignore", Decls: "type PFXS struct {\n\tName string\n\tOld PFXR\n}\ntype PFXR struct{ Name string }\ntype PFXT struct {\n\tName string\n\tOld *PFXT\n}\n", Src: "PFXS", Tgt: "*PFXT",
+			Conv: []string{"ignoreMissing"}, Lines: []string{"ignore Name"},
+			Pairs: map[string]*PairSpec{"PFXS→PFXT": {IgnoreMissing: true, Fields: map[string]*FieldSpec{"Name": {Ignore: true}}}, "PFXR→PFXT": {IgnoreMissing: true}}},
+		// two settings for one target field contradict each other: reported, not resolved silently
+		{Name: "fail_field_mapped_twice", Decls: "type PFXIn struct {\n\tA string\n\tB string\n}\ntype PFXOut struct{ X string }\n", Src: "PFXIn", Tgt: "PFXOut",
+			Lines: []string{"map A X", "map B X"}, Fail: "two goverter:map lines for one target field"},
+		{Name: "fail_field_ignored_and_mapped", Decls: "type PFXIn struct {\n\tA string\n\tB string\n}\ntype PFXOut struct{ X string }\n", Src: "PFXIn", Tgt: "PFXOut",
+			Lines: []string{"ignore X", "map A X"}, Fail: "a target field that is ignored and mapped"},
+		{Name: "fail_field_mapped_and_ignored", Decls: "type PFXIn struct {\n\tA string\n\tB string\n}\ntype PFXOut struct{ X string }\n", Src: "PFXIn", Tgt: "PFXOut",
+			Lines: []string{"map A X", "ignore X"}, Fail: "a target field that is mapped and ignored"},
 		// field settings on a method that hands the whole conversion to an extend function of its own signature
 		// ... and on a method over pointers to the structs, when an extend function exists for the struct pair itself
 		{Name: "fail_settings_bypassed_by_extend_ptr_ptr", Decls: "type PFXIn struct {\n\tName string\n\tFullName string\n}\ntype PFXOut struct{ Name string }\nfunc PFXWhole(in PFXIn) PFXOut { return PFXOut{} }\n", Src: "*PFXIn", Tgt: "*PFXOut",
